@@ -469,6 +469,51 @@ func TestCheck(t *testing.T) {
 			}
 		}
 	}
+	// scripted family: one connection stalled with MiBs of unread data (below the multiplexer's
+	// 4 MiB shared receive buffer, the property's own bound) while the other one is used
+	for _, carrier := range []string{"stream", "ws"} {
+		for _, side := range []int{sideApp, sideTgt} {
+			for _, big := range []int{1536 * 1024, 3 * 1024 * 1024, 3584 * 1024} {
+				tails := [][]Op{
+					{{Kind: "write", Conn: 1, Side: sideApp, N: 70000}},
+					{{Kind: "write", Conn: 1, Side: sideTgt, N: 70000}},
+					{{Kind: "write", Conn: 1, Side: sideApp, N: 70000}, {Kind: "write", Conn: 1, Side: sideTgt, N: 70000}},
+					{{Kind: "write", Conn: 1, Side: sideTgt, N: 1}, {Kind: "close", Conn: 1, Side: sideApp}},
+					{{Kind: "close", Conn: 1, Side: sideTgt}},
+				}
+				if !r.Thorough() && big != 3*1024*1024 {
+					tails = tails[:3]
+				}
+				for _, tail := range tails {
+					for _, openFirst := range []bool{true, false} {
+						var ops []Op
+						if openFirst {
+							ops = []Op{{Kind: "open", Conn: 0}, {Kind: "open", Conn: 1}, {Kind: "pause", Conn: 0, Side: side}, {Kind: "write", Conn: 0, Side: 1 - side, N: big}}
+						} else {
+							// the second connection is opened only after the first one is already stalled
+							ops = []Op{{Kind: "open", Conn: 0}, {Kind: "pause", Conn: 0, Side: side}, {Kind: "write", Conn: 0, Side: 1 - side, N: big}, {Kind: "open", Conn: 1}}
+						}
+						ops = append(ops, tail...)
+						if r.Mine(idx) && !r.OverBudget() {
+							c := Case{Carrier: carrier, K: 2, Ops: ops}
+							var kind, detail string
+							var steps int
+							r.Guard(idx, 60*time.Second, "hang|"+carrier, c.String(), c, func() {
+								kind, detail, steps, _ = execute(t, c)
+							})
+							record(r, c, kind, detail, steps)
+							r.State(mc.Hash("bigstall", carrier, side, big, len(tail), openFirst, kind != ""))
+							r.Nontrivial(mc.Hash(c.String()))
+							if idx%7 == 0 {
+								r.Sample(map[string]any{"case": c.String(), "outcome": kind})
+							}
+						}
+						idx++
+					}
+				}
+			}
+		}
+	}
 done:
 	sort.Strings(notes)
 	r.Note("graphs", notes)
